@@ -40,7 +40,14 @@ def leaf_of(vc, env, node, name="p"):
                 v = z3.ToReal(v) if z3.is_int(v) else v
                 env[key] = T.const_tensor(shp, v)
                 return env[key]
-        env[key] = vc.tensor(f"{name}{len(env)}", shp)
+        t = vc.tensor(f"{name}{len(env)}", shp)
+        env[key] = t
+        dt = node.fields.get("dtype")
+        if getattr(dt, "name", None) in ("REAL", "INTEGER"):
+            # a real-valued tensor is its own complex conjugate (axiom instantiated for this leaf)
+            ks = [z3.Int(vc.path.fresh_name("k_re")) for _ in shp]
+            e = t.elem(ks)
+            vc.path.assume(z3.ForAll(ks, T.elemwise("conj", e) == e, patterns=[T.elemwise("conj", e)]))
     return env[key]
 
 
